@@ -38,6 +38,7 @@ type Contract struct {
 	LockDelta  []*LockDelta
 	Assumes    []*Clause
 	Trace      map[string]bool
+	Sequential bool // no go statement may be executed by this function
 	Lemmas     []*Clause
 	EnsuresAssumed []*Clause // used at call sites, NOT checked against the body (listed as trusted clauses)
 }
@@ -213,6 +214,11 @@ func (w *World) loadContractFile(path string) error {
 		case "may_panic":
 			if cur != nil {
 				cur.MayPanic = true
+			}
+		case "sequential":
+			// the function does its work itself: it starts no goroutine
+			if cur != nil {
+				cur.Sequential = true
 			}
 		case "trusted":
 			if cur != nil {
